@@ -18,6 +18,13 @@ claim("C15",
       "interval bounds are added as their contracts discharge (see evidence for the current list).",
       "DESIGN.md §4 C15")
 
+claim("C06",
+      "Proof that every info dictionary accepted by NewInfo is well-formed for all decodable inputs: positive piece length "
+      "and piece count, non-negative file lengths, Info.Length equal to the exact (non-wrapping) sum of the file lengths "
+      "(recursive spec function + lemma by induction), piece count consistent with the total. Partial: piece construction "
+      "termination and the size limits on the input paths are added as their contracts discharge (see evidence).",
+      "DESIGN.md §4 C06")
+
 na("C10", "liveness/progress over unbounded schedules of several goroutines: a function contract cannot state fairness or progress measures (DESIGN.md §4 C10)")
 na("C20", "data races and lock-ups quantify over schedules; the contracts are sequential and assume the single-owner discipline C20 asks to prove (DESIGN.md §4 C20)")
 for p in ["C01", "C02", "C04", "C05", "C06", "C07", "C08", "C09", "C11", "C12", "C13", "C14", "C15", "C17", "C18", "C19"]:
